@@ -249,6 +249,7 @@ type Frame struct {
 	iterStart      map[int]map[string]string // loop ordinal -> heap snapshot at the start of the current iteration (after havoc)
 	iterStartCnt   map[int]map[string]string
 	iterStartNames map[int]map[string]Val
+	entryAlloc     int    // number of objects allocated before this frame started (fresh(x): allocated since)
 	lastRecvOk     string // "ok" of the most recent channel receive in this frame ("" = none yet)
 	nameAlias map[string]ssa.Value
 	parent     *Frame
